@@ -3,7 +3,7 @@ Generated thread mixes (8/12/16 threads, seeded per-thread call lists from the t
 refractive functions, catalogue and crystal lookups) run on a ThreadSanitizer build behind a barrier, under several seeded sched_yield
 patterns; oracles: no TSan report, per-thread results identical to a serial run, no locale-changing setlocale while workers are live
 (link-level --wrap observer)."""
-import os, random
+import os, random, math
 import common, vbuild, calls, apigen, apisweep, c03
 from common import Stats, mix
 
@@ -29,6 +29,46 @@ def private_array_line(rng):
         out[k] = out[k].replace("#UCELL", "#XCELL")                  # malformed (no cell): must fail in the same way in every thread
     out.append("#EOF\n")
     return calls.line("@private_array", "iss", (rng.randint(0, 6), "".join(out), rng.choice(names + ["AA_private_entry", "absent"])))
+
+
+def big_private_array_line(rng, nbytes):
+    """a large generated collection (tens to hundreds of kB: beyond any stdio or read-ahead buffer) for a thread-private array"""
+    out = ["#F generated, large\n"]
+    size, k = 0, 0
+    tag = "".join(rng.choice("abcdefgh") for _ in range(4))
+    while size < nbytes:
+        blk = "#S %d B%s_%05d\n#UCELL %.4f %.4f %.4f %.3f %.3f %.3f\n#N 5\n#L  AtomicNumber  Fraction  X  Y  Z\n" % (
+            rng.randint(1, 90), tag, k, rng.uniform(2, 12), rng.uniform(2, 12), rng.uniform(2, 12), 90.0, rng.choice((90.0, 101.5)), 90.0)
+        for _ in range(rng.randint(1, 6)):
+            blk += "%d %.3f %.4f %.4f %.4f\n" % (rng.randint(1, 92), rng.choice((1.0, 0.5)), rng.random(), rng.random(), rng.random())
+        out.append(blk)
+        size += len(blk)
+        k += 1
+    out.append("#EOF\n")
+    return calls.line("@private_array", "iss", (rng.randint(0, 6), "".join(out), "B%s_%05d" % (tag, rng.randrange(k))))
+
+
+def work_big(item):
+    """file mixes: every thread but one loads collections of its own, small ones and large ones (sizes log-uniform over 20 kB .. 700 kB, so that
+    several threads are inside the reading of a large file at the same time), while one thread - the only one that touches the built-in
+    collection - attempts loads that are parsed completely and then refused for lack of room."""
+    exe, src, seed, nmix, sdir, tag = item
+    st = Stats()
+    rng = random.Random(mix(seed, "c17big", tag))
+    for mi in range(nmix):
+        T = rng.choice([4, 8])
+        lines = []
+        for rnd in range(rng.randint(2, 3)):
+            for t in range(T):
+                if t == 0:
+                    lines.append(calls.line("@refused_builtin_load", "i", (rng.choice([480, 500, 600]),)))
+                elif rng.random() < 0.3:
+                    lines.append(private_array_line(rng))
+                else:
+                    lines.append(big_private_array_line(rng, int(math.exp(rng.uniform(math.log(2e4), math.log(7e5))))))
+        run_mix(st, exe, lines, T, sdir, tag, rng, "files:%d" % mi)
+        st.cls("file_mixes")
+    return st
 
 
 COMMA = None      # dict(LOCPATH, name) of the comma-decimal locale built by run(), or None
@@ -163,6 +203,7 @@ def run(ctx):
     COMMA = localetool.make_comma_locale(ctx.sdir)
     items = [(exe, b["src"], ctx.seed, nmix, per_thread, ctx.sdir, "w%d" % k) for k in range(5 if quick else 8)]
     ctx.stats.merge(common.pmap(work, items, jobs=5 if quick else 4))
+    ctx.stats.merge(common.pmap(work_big, [(exe, b["src"], ctx.seed, 2 if quick else 12, ctx.sdir, "b%d" % k) for k in range(4)], jobs=4))
     allf = sorted(apigen.descriptors(b["src"])[1]) + ["add_compound_data"]
     nf = 8
     items_f = [(exe, b["src"], ctx.seed, 60 if quick else 600, allf[k::nf], ctx.sdir, "f%d" % k) for k in range(nf)]
@@ -170,6 +211,7 @@ def run(ctx):
     ctx.rule = ("%d workers x %d generated mixes x 3 yield patterns: T in {8,12,16} threads, %d..%d calls per thread drawn (seeded) from the C03 argument "
                 "classes over every exported function (insertion only into collections private to the calling thread: init, ReadFile of a generated file, AddCrystal, "
                 "list, lookup, free), with blocks of identical queries issued by all threads at once; "
+                "plus file mixes (threads load private collections of 20 kB..700 kB at the same time while one thread attempts loads into the built-in collection that are parsed and refused); "
                 "plus focus mixes in which 4 threads execute the same argument sweep of every function in lockstep; ThreadSanitizer build (library and harness), barrier start, seeded sched_yield injection in the harness; compared line by line with a "
                 "serial run of the same lists; a third of the mixes run under a generated decimal-comma locale; setlocale observed through -Wl,--wrap. non-trivial = mix run in which >= 2 threads execute "
                 "allocating calls, distinct by (call lists, yield pattern)" % (len(items), nmix, per_thread // 2, per_thread))
